@@ -19,7 +19,8 @@ EXPLANATION = (
     "to integer literals), strings through ascii::escape_default whose escapes are in the string escape table; "
     "R4 indentation only ever increases by one level per nesting (Indentation::increased) and nested output is embedded "
     "unchanged."
-    " ADDED LATER: R5 fragments printed for parser-built nodes must lex (`#` annotations: known finding), every declaration kind prints `pub` and `extern` through independent tests, import paths are printed escaped.")
+    " ADDED LATER: R5 fragments printed for parser-built nodes must lex (`#` annotations: known finding), every declaration kind prints `pub` and `extern` through independent tests, import paths are printed escaped."
+    " ROUNDS 5-6: R6-LOCATION-BLIND: no body of the rebuilder reads a value of a location type; Display tables are read in match form and in literal-table form.")
 
 RB = "alpha::rebuilder::"
 ALLOWED_IGNORED = {"location", "location_of_declaration", "location_of_type", "location_of_return_type", "location_of_op",
